@@ -89,6 +89,13 @@ func runCaseReplay(t *testing.T, s *vh.Session) {
 		account(s, "", v.Out)
 	case "violation":
 		account(s, "", v.Out)
+		if s.ID == "C04" {
+			v.Feature = c04Features(c, v)
+		}
+		if f := s.MatchKnown(v.Feature, v.Msg); f != nil && !s.Probing() {
+			s.Known(f)
+			return
+		}
 		s.FailT(t, "run", c, v.Msg)
 	case "infra":
 		t.Fatalf("INFRA: %s", v.Msg)
